@@ -917,9 +917,10 @@ pub fn check_date_text(out: &mut RunOut, text: &str, carrier: Carrier, tp: &mut 
             if !in_chrono_range(t - refm::WINDOW_NS - 1) || !in_chrono_range(t + refm::WINDOW_NS + 1) {
                 return;
             }
-            // baseline: the same instant in the plainest form (YYYYMMDDTHHMMSSZ) must be accepted;
-            // if even that fails, something other than timestamp handling is broken
-            let t_sec = t.div_euclid(refm::NS) * refm::NS;
+            // baseline: the same kind of request at a neutral instant in the plainest form
+            // (20150830T123600Z) must be accepted; if even that fails, something other than the
+            // handling of *this* timestamp is broken
+            let t_sec = refm::instant_of_civil(2015, 8, 30, 12, 36, 0, 0);
             match deliver_with_date(&refm::compact_utc(t_sec), t_sec, t_sec, carrier, tp) {
                 Some((b, _)) if b.is_ok() => {}
                 _ => {
